@@ -9,6 +9,7 @@ BoolCases  == {[Base EXCEPT !.src = "bool", !.kind = "bool", !.d = b, !.tgt = t]
 StrCases   == {[Base EXCEPT !.src = "string", !.kind = "strint", !.a = Anchors[p[1]], !.d = p[2], !.tgt = t] : p \in AllPts, t \in Targets}
               \cup {[Base EXCEPT !.src = "string", !.kind = "strbad", !.d = v, !.tgt = t] : v \in {0, 1}, t \in Targets}
               \cup {[Base EXCEPT !.src = "string", !.kind = "strfloatbig", !.d = v, !.tgt = t] : v \in 0..5, t \in Targets}
+              \cup {[Base EXCEPT !.src = "string", !.kind = "strlead0", !.d = v, !.tgt = t] : v \in 0..7, t \in Targets}
               \* strfloat: "1.5", "1e3" and eight long decimal strings a hair above / below the midpoint of two adjacent float32 (float64) values
               \cup {[Base EXCEPT !.src = "string", !.kind = "strfloat", !.d = v, !.tgt = t] : v \in 0..9, t \in Targets}
 UnsCases   == {[Base EXCEPT !.src = s, !.kind = "unsupported", !.tgt = t] : s \in {"struct", "slice", "map", "func", "chan", "complex"}, t \in Targets}
